@@ -126,6 +126,57 @@ def run_pairs(ctx, n):
     return len(cases)
 
 
+def run_messages(ctx):
+    """directed: every listed entry carries ITS custom message - chains of parameterised calls (1..3 levels, with and without a
+    message at each level), named-rule references, blocks and or-lines, against hand-computed (name, message) chains"""
+    import itertools
+    scen = []
+    for depth in (1, 2, 3):
+        for msgs in itertools.product([True, False], repeat=depth + 1):       # msgs[0]: the clause, msgs[1..]: the calls from the inside out
+            names = ['lvl%d' % i for i in range(depth)]
+            text = 'rule %s(p0) {\n  %%p0.a == 1%s\n}\n' % (names[0], ' <<clause message>>' if msgs[0] else '')
+            for i in range(1, depth):
+                text += 'rule %s(p%d) {\n  %s(%%p%d)%s\n}\n' % (names[i], i, names[i - 1], i, (' <<call %d message>>' % i) if msgs[i] else '')
+            text += 'rule top {\n  %s(o)%s\n}\n' % (names[depth - 1], (' <<call %d message>>' % depth) if msgs[depth] else '')
+            chain = [('top', None)]
+            for i in range(depth, 0, -1):
+                chain.append((names[i - 1], ('call %d message' % i) if msgs[i] else None))
+            chain.append(('CLAUSE', 'clause message' if msgs[0] else None))
+            scen.append((text, chain))
+    jobs = []
+    for k, (text, chain) in enumerate(scen):
+        d = os.path.join(ctx.wd, 'msg%d' % k)
+        e2e.write_files(d, {'r.guard': text, 'd.json': '{"o": {"a": 5}}'})
+        jobs.append({'args': ['validate', '-r', 'r.guard', '-d', 'd.json', '--structured', '-o', 'json', '-S', 'none'], 'cwd': d})
+    n = 0
+    for (text, chain), (code, so, se) in zip(scen, e2e.run_many(jobs)):
+        info = {'class': 'custom-message', 'rules': text, 'data': '{"o": {"a": 5}}', 'expected_chain': chain}
+        try:
+            rep = json.loads(so.decode())[0]
+        except Exception:
+            ctx.failing('no structured report for a chain of parameterised calls (status %s)' % code, info, found=True)
+            continue
+        got = []
+        x = rep['not_compliant'][0] if rep['not_compliant'] else None
+        while x is not None:
+            if 'Rule' in x:
+                got.append((x['Rule']['name'], x['Rule']['messages'].get('custom_message')))
+                x = x['Rule']['checks'][0] if x['Rule']['checks'] else None
+            elif 'Clause' in x:
+                inner = list(x['Clause'].values())[0]
+                got.append(('CLAUSE', inner['messages'].get('custom_message') or None))      # a clause without a message prints ""
+                x = None
+            else:
+                got.append((list(x.keys())[0], None))
+                x = None
+        n += 1
+        if got != chain:
+            ctx.failing('the entries listed for a chain of calls carry %s, expected %s' % (got, chain), dict(info, observed_chain=got), found=True)
+    ctx.coverage['message_chain_scenarios'] = n
+    ctx.coverage['evaluations'] += n
+    return n
+
+
 def run_combine(ctx, n):
     rng = random.Random(ctx.seed * 97 + 10)
     jobs, meta, scen = [], [], []
@@ -153,16 +204,25 @@ def run_combine(ctx, n):
             rules.append(text)
         d = os.path.join(ctx.wd, 'u%d' % k)
         files = {'d.json': json.dumps(doc)}
-        for i, r in enumerate(rules):
-            files['r%d.guard' % i] = r
+        # where the rules files live: side by side, under the same base name in different directories, or in a directory
+        # tree handed over as a whole
+        layout = ['flat', 'same-basename', 'directory'][k % 3]
+        names = ['r%d.guard' % i if layout == 'flat' else ('pol/d%d/rules.guard' % i) for i in range(nr)]
+        for nme, r in zip(names, rules):
+            files[nme] = r
+        for nme in names:
+            os.makedirs(os.path.join(d, os.path.dirname(nme)), exist_ok=True)
         e2e.write_files(d, files)
-        scen.append({'rules': rules, 'doc': doc})
+        scen.append({'rules': rules, 'doc': doc, 'layout': layout})
         for i in range(nr):
-            jobs.append({'args': ['validate', '-r', 'r%d.guard' % i, '-d', 'd.json'] + flags, 'cwd': d})
+            jobs.append({'args': ['validate', '-r', names[i], '-d', 'd.json'] + flags, 'cwd': d})
             meta.append((k, i))
         args = ['validate', '-d', 'd.json'] + flags
-        for i in range(nr):
-            args += ['-r', 'r%d.guard' % i]
+        if layout == 'directory':
+            args += ['-r', 'pol']
+        else:
+            for i in range(nr):
+                args += ['-r', names[i]]
         jobs.append({'args': args, 'cwd': d})
         meta.append((k, 'all'))
     res = e2e.run_many(jobs)
@@ -171,7 +231,7 @@ def run_combine(ctx, n):
         by.setdefault(m[0], {})[m[1]] = r
     ok = 0
     for k, sc in enumerate(scen):
-        info = {'class': 'combine', 'rules': sc['rules'], 'doc': sc['doc']}
+        info = {'class': 'combine', 'rules': sc['rules'], 'doc': sc['doc'], 'layout': sc['layout']}
         try:
             singles = []
             for i in range(len(sc['rules'])):
@@ -194,7 +254,12 @@ def run_combine(ctx, n):
         want_nc = [x for s in singles for x in s['not_compliant']]
         sts = [s['status'] for s in singles]
         want_st = 'FAIL' if 'FAIL' in sts else ('PASS' if 'PASS' in sts else 'SKIP')
-        if allr['compliant'] != want_c or allr['not_applicable'] != want_na or allr['not_compliant'] != want_nc or allr['status'] != want_st:
+        if sc['layout'] == 'directory':
+            key = lambda x: json.dumps(x, sort_keys=True)
+            same_nc = sorted(allr['not_compliant'], key=key) == sorted(want_nc, key=key)      # the walk order of a directory is the tool's
+        else:
+            same_nc = allr['not_compliant'] == want_nc
+        if allr['compliant'] != want_c or allr['not_applicable'] != want_na or not same_nc or allr['status'] != want_st:
             ctx.failing('the report for %d rules files is not the union of the individual reports' % len(singles),
                         dict(info, combined={'status': allr['status'], 'compliant': allr['compliant'], 'not_applicable': allr['not_applicable'], 'nc': names_nc(allr)},
                              singles=[{'status': s['status'], 'compliant': s['compliant'], 'not_applicable': s['not_applicable'], 'nc': names_nc(s)} for s in singles]), found=True)
@@ -211,7 +276,7 @@ def run(ctx):
     pr = ctx.proofs('C09')
     thorough = ctx.tier == 'thorough'
     n1 = run_pairs(ctx, 2500 if thorough else 400)
-    n2 = run_combine(ctx, 200 if thorough else 40)
+    n2 = run_combine(ctx, 200 if thorough else 40) + run_messages(ctx)
     ctx.coverage['distinct_nontrivial'] = n1 + n2
     ctx.coverage['rule'] = ('generated (rules, document) pairs from tools/gv/gen.py plus hand-written shapes (FAIL rule without displayable check, empty block '
                             'selection, disjunctions, named-rule clauses, custom messages, literal variables); counted when the evaluation succeeds and a report is '
